@@ -70,6 +70,15 @@ CHECKS = {
             "bzip2/libbz2 output at every level, concatenations and the repository samples must be accepted (exit 0, empty "
             "stderr) and decode to the known plaintext under several worker counts, schedules and buffer sizes.",
             "Trusted: bzgen/bzkit/libbz2 agreement on every generated file (disagreement = harness error).", "4/C06"),
+    "C08": ("exploration",
+            "sanitizer-instrumented fuzzing: rapidcheck in-process targets + libFuzzer campaigns (ASan/UBSan, asserts on) + "
+            "Hypothesis-generated whole-program runs on ASan/UBSan and MSan builds; oracle: no report / assertion / fatal signal",
+            "The codec functions run in-process under ASan+UBSan with asserts on, driven by rapidcheck tapes and libFuzzer "
+            "(input in exact-size heap buffers, every suspension schedule), and the whole program built with ASan+UBSan and "
+            "with MSan runs generated compress / decompress / copy cases (scheduler shapes, valid, defective and mutated "
+            "files, hook block sizes down to 4 bytes, owned schedules). Any sanitizer report, failed assertion or fatal "
+            "signal is a violation. Only executed paths are seen.",
+            "Trusted: clang 14 sanitizers; the glue's pooled allocator poisons its slots manually.", "4/C08"),
     "C09": ("exploration",
             "Hypothesis-generated (compressed input, valid or mutated) x >= 6 contexts (workers, owned schedules, hook "
             "input/output block sizes, short reads, fragmented pipe, stdout / -c / FILE / -t); metamorphic + reference oracle",
@@ -116,6 +125,13 @@ CHECKS = {
             "status) must match a model written from the man page, moving LBZIP2/BZIP2/BZIP tokens to the front of the "
             "command line must change nothing, and inserting the documented no-op options or --small must change nothing.",
             "Trusted: the model's reading of the man page (usage text and lbzip2.1).", "4/C22"),
+    "C13": ("exploration",
+            "generated size/worker sweeps with a stalled consumer; measured peak RSS against a fixed linear bound",
+            "Bombs, incompressible data, text, candidate floods and planted false blocks are processed at ~3x and ~12x the "
+            "capacity of all I/O slots for 1-8 workers while the consumer stalls; peak RSS (measured by /usr/bin/time) must "
+            "stay under fixed A + B*workers, and where it grows between the two sizes a 16x run must still be under the bound. "
+            "A measured bound on this allocator, not a proof.",
+            "Trusted: ru_maxrss as reported by the kernel; constants A, B fixed in the check source.", "4/C13"),
     "C14": ("exploration",
             "exhaustive table check against a reference KMP automaton + rapidcheck-generated bit streams through lbzip2's "
             "scan() (in-process, ASan/UBSan) against a naive matcher",
